@@ -118,7 +118,7 @@ def slice_(v, a, b, pythonic=True, simp=None):
 def make_tuple(parts):
     t = ty.Tuple([p.t for p in parts])
     s = ty.sort_of(t)
-    return SV(t, s.mk(*[p.e for p in parts]))
+    return SV(t, s.constructor(0)(*[p.e for p in parts]))
 
 
 def tuple_parts(v):
@@ -174,7 +174,7 @@ def coerce(v, t):
         if isinstance(t, ty.Seq):
             return ty.empty_seq(t)
         if isinstance(t, ty.Map):
-            return SV(t, z3.K(ty.sort_of(t.key), ty.sort_of(ty.Opt(t.val)).none))
+            return SV(t, z3.K(ty.sort_of(t.key), ty.opt_none(t.val).e))
         if isinstance(t, ty.Set):
             return SV(t, z3.K(ty.sort_of(t.key), z3.BoolVal(False)))
         if isinstance(t, ty.Opt):
@@ -251,7 +251,7 @@ def contains(container, item):
     if isinstance(t, ty.Set):
         return z3.Select(container.e, coerce(item, t.key).e)
     if isinstance(t, ty.Map):
-        return z3.Not(ty.sort_of(ty.Opt(t.val)).is_none(z3.Select(container.e, coerce(item, t.key).e)))
+        return z3.Not(ty.opt_is_none(SV(ty.Opt(t.val), z3.Select(container.e, coerce(item, t.key).e))))
     if isinstance(t, ty.Tuple):
         return z3.Or(*[equals(p, item) for p in tuple_parts(container)])
     raise Unsupported("in %s" % t)
